@@ -283,6 +283,13 @@ func runC07(r *core.R) {
 		{"InstallFontFromBytes[A]/fresh(cwd elsewhere)", nil, func(dir string) error {
 			return font.InstallFontFromBytes(filepath.Join(dir, "fonts"), "a.ttf", fontA)
 		}, []string{A}},
+		// TrueType collections: every member is written and published separately
+		{"InstallFonts[collection A+B]/fresh", nil, inst("ab.ttc"), []string{A, B}},
+		{"InstallFonts[collection A+B]/A-exists", []string{A}, inst("ab.ttc"), []string{A, B}},
+		{"InstallTrueTypeCollection[A+B]/fresh", nil, func(dir string) error {
+			_, err := font.InstallTrueTypeCollection(filepath.Join(dir, "fonts"), filepath.Join(dir, "ab.ttc"))
+			return err
+		}, []string{A, B}},
 	}
 	cwd, _ := os.Getwd()
 	defer os.Chdir(cwd)
@@ -296,6 +303,7 @@ func runC07(r *core.R) {
 		os.MkdirAll(filepath.Join(dir, "elsewhere"), 0o755)
 		os.WriteFile(filepath.Join(dir, "a.ttf"), fontA, 0o644)
 		os.WriteFile(filepath.Join(dir, "b.ttf"), fontB, 0o644)
+		os.WriteFile(filepath.Join(dir, "ab.ttc"), buildTTC(fontA, fontB), 0o644)
 		font.UserFontDir = filepath.Join(dir, "fonts")
 		for _, p := range d.pre {
 			src := map[string]string{A: "a.ttf", B: "b.ttf"}[p]
